@@ -5,6 +5,7 @@ from vlib import *
 import oracles
 
 FILES = ['include/urcu/static/wfcqueue.h', 'include/urcu/wfcqueue.h', 'src/wfcqueue.c']
+OPROGS = ['dDdd/E0E1/E2', 'dsdn/E0E1/E2E3', 'wIew/E0/E1E2', 'ddddd/E0/E1/E2', 'nDsI/E0E1/E2', 'edIds/E0E1E2']
 PROGS = ['DDDDD/E0E1/E2E3', 'DDD/E0/E1/E2', 'DDDD/E0E1E2', 'DD/E0/E1', 'DDDDDD/E0E1/E2/E3E4']
 TRUSTED = ['Coq 8.16.1 kernel; no axioms (closed under the global context); no native_compute',
            'extraction: ExtrOcamlBasic only; ocaml/wfcq_driver.ml',
@@ -43,14 +44,48 @@ def canon_c(out):
 
 def fifo_wfcq_apply(state, op, arg):
     if op == 'enq': return state + (arg,), ('1' if state else '0')    # returns "queue was non-empty"
-    if op == 'deq': return (state[1:], state[0]) if state else (state, '0')
+    if op in ('deq', 'deqs'): return (state[1:], state[0]) if state else (state, '0')
+    if op == 'deqnb': return [(state[1:], state[0]) if state else (state, '0'), (state, '-1')]     # WOULDBLOCK always tolerated here (C17 checks when it may occur)
+    if op == 'splice': return (), ','.join(state)
+    if op == 'splicenb': return [((), ','.join(state)), (state, 'WB')]
+    if op == 'iter': return state, ','.join(state)
+    if op == 'empty': return state, ('0' if state else '1')
+OPS = ('enq', 'deq', 'deqs', 'deqnb', 'splice', 'splicenb', 'iter', 'empty')
+def history(raw):
+    open_ = {}; out = []; chain = {}; i = 0
+    for l in raw.splitlines():
+        p = l.split()
+        if len(p) < 2 or not p[0].isdigit(): continue
+        i += 1; t, k = p[0], p[1]
+        if k == 'call' and p[2] in OPS: open_[t] = (p[2], nid(p[3]), i)
+        elif k == 'note' and p[2] == 'chain': chain[t] = ','.join(str(int(x) + 2) for x in (p[3] if len(p) > 3 else '').split(',') if x)
+        elif k == 'ret' and t in open_ and p[2] == open_[t][0]:
+            op, arg, ci = open_.pop(t)
+            if op in ('splice', 'iter'): r = chain.pop(t, '')
+            elif op == 'splicenb': r = 'WB' if p[3] == '-1' else chain.pop(t, '')
+            else: r = nid(p[3])
+            out.append((t, op, arg, r, ci, i))
+    for t, (op, arg, ci) in open_.items(): out.append((t, op, arg, None, ci, None))
+    return out
 def oracle(p, s, cl, raw):
-    hist = oracles.history(cl, ('enq', 'deq'))
-    ok = oracles.linearizable(hist, (), fifo_wfcq_apply)
-    if ok is False: return 'history is not a linearizable FIFO history (incl. the was-non-empty result of enqueue)'
-    enq = [h[2] for h in hist if h[1] == 'enq' and h[5] is not None]; deq = [h[3] for h in hist if h[1] == 'deq' and h[3] not in (None, '0')]
-    if len(set(deq)) != len(deq): return 'a node was dequeued twice'
-    if any(d not in [h[2] for h in hist if h[1] == 'enq'] for d in deq): return 'dequeue returned a node that was never enqueued'
+    if 'DEADLOCK' in raw: return 'stuck state'
+    if 'STEP LIMIT' in raw: return 'live-lock: a dequeuer-side operation never returns (step limit reached)'
+    hist = history(raw)
+    ok = oracles.linearizable(hist, (), fifo_wfcq_apply, maxops=14)
+    if ok is False: return 'history is not a linearizable FIFO history (incl. was-non-empty, splice, iteration, empty): ' + '; '.join('%s %s(%s)->%s' % (x[0], x[1], x[2], x[3]) for x in hist)
+    deq = []
+    for h in hist:
+        if h[1] in ('deq', 'deqs', 'deqnb') and h[3] not in (None, '0', '-1'): deq.append(h[3])
+        if h[1] in ('splice', 'splicenb') and h[3] not in (None, 'WB', ''): deq += h[3].split(',')
+    if len(set(deq)) != len(deq): return 'a node was dequeued twice: %s' % deq
+    enq_all = [h[2] for h in hist if h[1] == 'enq']
+    if any(d not in enq_all for d in deq): return 'dequeue returned a node that was never enqueued'
+    m = re.search(r'^- drain(.*)$', raw, flags=re.M)
+    if m and all(h[5] is not None for h in hist):
+        rest = m.group(1).split()
+        if 'WOULDBLOCK' in rest: return 'at quiescence the queue still answers WOULDBLOCK after 50 attempts: nodes %s are lost' % sorted(set(enq_all) - set(deq))
+        rest = [str(int(x) + 2) for x in rest]
+        if sorted(deq + rest) != sorted(enq_all): return 'conservation: enqueued %s, dequeued %s, left in the queue %s' % (enq_all, deq, rest)
     return None
 
 def gen(ctx, n):
@@ -80,6 +115,20 @@ def run(ctx):
         cases = gen(ctx, 400 if ctx.quick() else 6000)
         tail = ''.join(chr(ord('a') + i) + str(i) for i in range(6)) * 150
         corr_schedules(ctx, 'Wfcq.v vs static/wfcqueue.h', impl, model, cases, canon_c, oracle=oracle, nontrivial=nontrivial, tail=tail, scenario='scen_wfcq')
+        ocases = []
+        for prog in OPROGS[:4 if ctx.quick() else len(OPROGS)]:
+            th = [str(i) for i in range(prog.count('/') + 1)]
+            for v in th[1:]:
+                for point in range(1, 6):
+                    for fm in (0, 1):
+                        for k0 in (0, 2, 5, 9):          # the dequeuer first runs k0 steps, then the enqueuer is frozen at `point`, then the dequeuer goes on alone
+                            ocases.append((prog, '0' * k0 + v * point + ('0a' * 40) + parking(th, 0, 1, v, fm)))
+                            for u in th[1:]:      # one enqueue by u completes first, so that the queue holds exactly one node when v is frozen
+                                if u != v: ocases.append((prog, '0' * k0 + '>' + u + chr(ord('a') + int(u)) + v * point + ('0a' * 40) + parking(th, 0, 1, v, fm)))
+        while len(ocases) < (300 if ctx.quick() else 4000):
+            prog = ctx.rng.choice(OPROGS); th = [str(i) for i in range(prog.count('/') + 1)]
+            ocases.append((prog, bursty(ctx.rng, th, flush=ctx.rng.choice([0.0, 0.05, 0.3]))))
+        corr_schedules(ctx, 'wfcqueue FIFO (non-blocking dequeue, with-state, splice, iteration, empty)', impl, None, ocases, canon_c, oracle=oracle, nontrivial=nontrivial, tail=tail, scenario='scen_wfcq (oracle only)')
     return finish(ctx, trusted=TRUSTED,
                   rule='schedules (Step/Flush choices) = corpus + parking sweeps (enqueuer frozen at each program point incl. between tail exchange and link store, '
                        'store buffered or flushed; dequeuer frozen at each point) + bursty random with flush probability 0-0.3; non-trivial = the dequeuer had to wait '
